@@ -113,6 +113,7 @@ int main(int argc, char** argv) {
     if (it == Registry::map().end()) { ++skipped; continue; }
     // header of the execution: the pipeline definition (for the monitor's denotational rules)
     vrt::ev("{\"e\":\"Reset\",\"x\":%ld,\"shape\":%d,\"pipe\":%s}", x, shape, beh["pipe"].dump().c_str());
+    vrt::log_flush();                      // a sanitizer death must find the Reset of its execution in the file
     std::fprintf(stderr, "@@X %ld\n", x);
     Track::reset();
     {
